@@ -14,6 +14,8 @@ have = {}
 for m in ms:
     if m.get("rule"):
         have.setdefault(m["rule"], []).append(m["id"])
+    for r in (m.get("rules") or {}).values():
+        have.setdefault(r, []).append(m["id"])
 missing = [r for r in sorted(rules) if r not in have]
 for r in sorted(rules):
     print("%-28s %-22s %d mutant(s)" % (r, ",".join(sorted(rules[r])), len(have.get(r, []))))
